@@ -40,6 +40,10 @@ CHECKS['C06'] = dict(
     text='(a) a real StreamFace.run() is fed every single cut (and all double cuts of short streams, EOF at every offset) of generated packet sequences through an asyncio.StreamReader, thorough also real unix/TCP sockets; (b) every packet kind and its byte/truncation/structural mutants are delivered (awaited) to both front-ends in empty and busy states with an exception sentinel on reception and background tasks, bystander Interests/handlers must complete afterwards; (c) malformed datagrams into a real UdpFace over loopback. One open known finding (consequence of the C07 finding).',
     design_ref='DESIGN.md 3/C06', technique='runtime monitoring with fault injection (chunking, mutation) and exception sentinels; bystander liveness restated as bounded completion after the batch',
     note='"legitimately addressed" is decided by the independent strict codec; LP envelopes with repeated/out-of-order headers or a reason-less Nack are ambiguous and not judged.', level='fault_enumeration')
+CHECKS['C10'] = dict(
+    text='Twin apps in lock-step (bare packet vs the same packet inside an NDNLPv2 envelope with a generated header subset incl. unknown critical/non-critical numbers) must produce equal effect logs (handler calls, completions, face output); Nack envelopes must complete exactly the pending Interests of that name with exactly the reason (0..2^64-1); fragmented envelopes must have no effect; replies to Interests with PIT tokens (length 0..40, answered out of order, some late) are decoded from the recorded face output with the independent codec.',
+    design_ref='DESIGN.md 3/C10', technique='runtime differential monitor (twin executions) with boundary recorders and an independent LP decoder',
+    note='headers generated in ascending type order before the fragment; PIT-token clause judged on the current front-end only.')
 _ALL = ['C%02d' % i for i in range(1, 21)]
 for _p in _ALL:
     if _p not in CHECKS:
